@@ -37,7 +37,7 @@ AdvStep ==
        [] Ev.kind = "trunc" -> Trunc(Ev.k)
   /\ UNCHANGED off
 
-ReadStep ==
+ReadStep2 ==
   IF ReadIsData
     THEN /\ Mark(Ev.err \/ Ev.n < 1, "I_RoundTrip", l)
          /\ Mark(Ev.n >= 1 /\ (Ev.n > ExpN(Ev.buf) \/ Ev.runs # <<<<delivered % 251, Ev.n>>>>), "I_NoWrongPlaintext", l)
@@ -49,6 +49,10 @@ ReadStep ==
          /\ IF Ev.n > 0 THEN off' = TRUE /\ UNCHANGED avars
             ELSE off' = off /\ ReadG(Ev.buf, 0)
 
+ReadStep ==
+  /\ Mark(Ev.n > Ev.buf \/ Ev.n < 0, "I_ReadContract", l)
+  /\ Mark(Ev.panic # "", "I_NoPanic", l)
+  /\ ReadStep2
 Pow(L) == IF L = 1 THEN 256 ELSE 65536
 Step ==
   CASE Ev.ev = "reset" ->
@@ -59,6 +63,7 @@ Step ==
     [] Ev.ev = "write" -> IF off THEN UNCHANGED <<avars, off>> ELSE WriteStep
     [] Ev.ev = "adv" -> IF off THEN UNCHANGED <<avars, off>> ELSE AdvStep
     [] Ev.ev = "read" -> IF off THEN UNCHANGED <<avars, off>> ELSE ReadStep
+    [] Ev.ev = "panic" -> Mark(TRUE, "I_NoPanic", l) /\ off' = TRUE /\ UNCHANGED avars
     [] Ev.ev = "counter" ->
          /\ Mark(Ev.ok # Pow(Ev.L) \/ Ev.distinct # Ev.ok \/ ~Ev.errAfter, "I_CounterNoRepeat", l)
          /\ UNCHANGED <<avars, off>>
